@@ -27,7 +27,7 @@ def keyfn(p, clause, detail):
 
 
 def run(ctx) -> None:
-    L = 4 if ctx.quick else 5
+    L = 4 if ctx.quick else 6
     ctx.rule = (f"programs = every program of <= {L} statements over the 'labels' alphabet of MC_Asm + seeded APR trees with "
                 "macros, loops, scopes, moves; non-trivial = programs with at least one label followed by an emitting statement "
                 "that the spec gives a meaning")
@@ -39,17 +39,18 @@ def run(ctx) -> None:
     asm_mc.refute_pinned(ctx)
     progs = asm_mc.programs(ctx, "labels", L)
     # the shadowing family: a name that is a constant outside and a label inside, over a small alphabet, one statement deeper
-    asm_mc.design_level(ctx, "shadow", L + 1)
-    progs += asm_mc.programs(ctx, "shadow", L + 1)
+    B = 4 if ctx.quick else 5
+    asm_mc.design_level(ctx, "shadow", B + 1)
+    progs += asm_mc.programs(ctx, "shadow", B + 1)
     # shadowing inside a loop body (labels of loop iterations are position-derived symbols too)
-    asm_mc.design_level(ctx, "shadowloop", L + 1)
-    progs += asm_mc.programs(ctx, "shadowloop", L + 1)
+    asm_mc.design_level(ctx, "shadowloop", B + 1)
+    progs += asm_mc.programs(ctx, "shadowloop", B + 1)
     # named scopes inside loop iterations (each iteration exports its own labels)
-    asm_mc.design_level(ctx, "loopscope", L + 2)
-    progs += asm_mc.programs(ctx, "loopscope", L + 2)
+    asm_mc.design_level(ctx, "loopscope", B + 2)
+    progs += asm_mc.programs(ctx, "loopscope", B + 2)
     # ... and the same under @= relocation (RAM and ROM run addresses)
-    asm_mc.design_level(ctx, "shadowram", L + 2)
-    progs += asm_mc.programs(ctx, "shadowram", L + 2)
+    asm_mc.design_level(ctx, "shadowram", B + 2)
+    progs += asm_mc.programs(ctx, "shadowram", B + 2)
     ctx.extra["tlc_enumerated_programs"] = len(progs)
     n = 500 if ctx.quick else 8000
     progs += [apr.gen_program(ctx.seed * 7919 + k, size=8 + k % 16) for k in range(n)]
